@@ -1215,3 +1215,5 @@ V("C10", "y-range-single-copy-offset-in-triclinic-cells", NLC, "            if (
 V("C02", "xtc-skip-buffer-sized-for-selection", "mdtraj/formats/xtc/xtc.pyx", "            xyz_stride = np.empty((1, self.n_atoms, 3), dtype=np.float32)",
   "            xyz_stride = np.empty((1, n_atoms_to_read, 3), dtype=np.float32)", "C02-R7", "XTCTrajectoryFile._read")
 V("C02", "twin-xtc-skip-buffer-renamed", "mdtraj/formats/xtc/xtc.pyx", None, None, None, edits=[("xyz_stride", "skipped_frame")], count="all")
+V("C12", "keywords-caseless", "mdtraj/core/selection.py", "            return MatchFirst([Keyword(kw) for kw in kws])", "            return MatchFirst([CaselessKeyword(kw) for kw in kws])", "C12-R7")
+V("C12", "twin-keywords-explicitly-case-sensitive", "mdtraj/core/selection.py", "            return MatchFirst([Keyword(kw) for kw in kws])", "            return MatchFirst([Keyword(kw, caseless=False) for kw in kws])", None)
